@@ -138,6 +138,41 @@ func runC05(c *Ctx) {
 					c.OK("C05.1", FuncName(fn), desc+":build-fresh", m.Instr.Pos(), "entries added to a header map constructed in this function (parsing/assembly, not transported metadata)")
 					continue
 				}
+				// the key is a parameter of a small helper ('read the header, then delete it' -
+				// refactoring B28_r1): decided at the call sites, all of which must be static and
+				// pass constant control keys
+				if prm, isPrm := strip(m.Key).(*ssa.Parameter); isPrm {
+					idx := -1
+					for i, q := range fn.Params {
+						if q == prm {
+							idx = i
+						}
+					}
+					edges := p.Callers(fn)
+					allOK := idx >= 0 && len(edges) > 0
+					var passed []string
+					for _, e := range edges {
+						if e.Kind != "static" || e.Site == nil || idx >= len(e.Site.Common().Args) {
+							allOK = false
+							break
+						}
+						keys, isK := constKeys(e.Site.Common().Args[idx])
+						if !isK {
+							allOK = false
+							break
+						}
+						for _, k := range keys {
+							if !controlKeys[textproto.CanonicalMIMEHeaderKey(k)] {
+								allOK = false
+							}
+							passed = append(passed, k)
+						}
+					}
+					if allOK {
+						c.OK("C05.1", FuncName(fn), desc+":key-parameter", m.Instr.Pos(), "the key is a parameter; every call site passes a constant protocol control key")
+						continue
+					}
+				}
 				c.Bad("C05.1", FuncName(fn), desc+":computed-key", m.Instr.Pos(),
 					"header mutation with a computed key that is not derived from the key of a ranged header map: application metadata may be renamed or dropped")
 				continue
